@@ -145,8 +145,21 @@ def _num(part: str):
     return v
 
 
+def _msplit(s: str, ch: str):
+    """s.split(ch) for a single character, written with plain indexing (CrossHair's split/count models
+    produced non-replaying artefacts here)"""
+    parts = []
+    start = 0
+    for i in range(len(s)):
+        if s[i] == ch:
+            parts.append(s[start:i])
+            start = i + 1
+    parts.append(s[start:])
+    return parts
+
+
 def _is_v4_aton(s: str) -> bool:
-    parts = s.split(".")
+    parts = _msplit(s, ".")
     k = len(parts)
     if k > 4:
         return False
@@ -159,55 +172,75 @@ def _is_v4_aton(s: str) -> bool:
     for v in vals[:-1]:
         if v > 255:
             return False
-    return vals[-1] < 256 ** (5 - k)
+    lim = 256 if k == 4 else 65536 if k == 3 else 16777216 if k == 2 else 4294967296
+    return vals[-1] < lim
 
 
 def _is_v4_strict(s: str) -> bool:
-    parts = s.split(".")
+    parts = _msplit(s, ".")
     if len(parts) != 4:
         return False
     for p in parts:
         if not (1 <= len(p) <= 3):
             return False
+        v = 0
         for c in p:
             if c not in "0123456789":
                 return False
+            v = v * 10 + (ord(c) - 48)
         if len(p) > 1 and p[0] == "0":
             return False
-        if int(p) > 255:
+        if v > 255:
             return False
     return True
 
 
 def _is_v6(s: str) -> bool:
-    if ":" not in s:
+    n = len(s)
+    if n < 2:
         return False
-    if s.count("::") > 1 or ":::" in s:
+    if s == "::":
+        return True
+    if s[0] == ":":
+        if s[1] != ":":
+            return False
+        s = s[1:]
+    n = len(s)
+    if s[n - 1] == ":":
+        if n < 2 or s[n - 2] != ":":
+            return False
+        s = s[:n - 1]
+    parts = _msplit(s, ":")
+    if len(parts) < 2:
         return False
-    has_gap = "::" in s
-    if has_gap:
-        left, right = s.split("::")
-        lparts = left.split(":") if left else []
-        rparts = right.split(":") if right else []
-    else:
-        lparts, rparts = s.split(":"), []
-    parts = lparts + rparts
-    n = 0
-    for i, p in enumerate(parts):
-        if i == len(parts) - 1 and "." in p and (rparts or not has_gap):
-            if not _is_v4_strict(p):
-                return False
-            n += 2
+    gaps = 0
+    groups = 0
+    last = len(parts) - 1
+    for i in range(len(parts)):
+        p = parts[i]
+        if p == "":
+            gaps += 1
             continue
-        if not (1 <= len(p) <= 4):
+        dotted = False
+        for c in p:
+            if c == ".":
+                dotted = True
+        if dotted:
+            if i != last or not _is_v4_strict(p):
+                return False
+            groups += 2
+            continue
+        if len(p) > 4:
             return False
         for c in p:
             if c not in "0123456789abcdefABCDEF":
                 return False
-        n += 1
-    if has_gap:
-        return n <= 7
-    return n == 8
+        groups += 1
+    if gaps > 1:
+        return False
+    if gaps == 1:
+        return groups <= 7
+    return groups == 8
 
 
 def ref_is_numeric_ip(s: str) -> bool:
